@@ -1,0 +1,124 @@
+//! Verification hooks (compiled only with `--cfg liquid_verif`): a thread-local
+//! recorder of scope-frame events, flushed once per top-level render to the
+//! file named by `LIQUID_VERIF_TRACE`.  Disabled (and free) when the variable
+//! is not set.
+#![allow(missing_docs)]
+
+use std::cell::RefCell;
+use std::io::Write;
+use std::sync::atomic::{AtomicU64, Ordering};
+use std::sync::{Mutex, OnceLock};
+
+static NEXT_ID: AtomicU64 = AtomicU64::new(1);
+static SINK: OnceLock<Option<Mutex<std::fs::File>>> = OnceLock::new();
+
+thread_local! {
+    static BUF: RefCell<Vec<String>> = const { RefCell::new(Vec::new()) };
+    static DEPTH: RefCell<u32> = const { RefCell::new(0) };
+}
+
+fn sink() -> &'static Option<Mutex<std::fs::File>> {
+    SINK.get_or_init(|| {
+        std::env::var_os("LIQUID_VERIF_TRACE").and_then(|p| {
+            std::fs::OpenOptions::new()
+                .create(true)
+                .append(true)
+                .open(p)
+                .ok()
+                .map(Mutex::new)
+        })
+    })
+}
+
+pub fn enabled() -> bool {
+    sink().is_some()
+}
+
+/// A fresh identity for a scope frame.
+pub fn next_id() -> u64 {
+    NEXT_ID.fetch_add(1, Ordering::Relaxed)
+}
+
+fn esc(s: &str) -> String {
+    let mut o = String::with_capacity(s.len() + 2);
+    for c in s.chars() {
+        match c {
+            '"' => o.push_str("\\\""),
+            '\\' => o.push_str("\\\\"),
+            c if (c as u32) < 0x20 => o.push_str(&format!("\\u{:04x}", c as u32)),
+            c => o.push(c),
+        }
+    }
+    o
+}
+
+/// `{"e": ev, "id": id, ...extra}`; `extra` is a list of (key, value) with string values.
+pub fn emit(ev: &str, id: u64, extra: &[(&str, &str)], flags: &[(&str, bool)]) {
+    if !enabled() {
+        return;
+    }
+    let mut line = format!("{{\"e\":\"{ev}\",\"id\":{id}");
+    for (k, v) in extra {
+        line.push_str(&format!(",\"{}\":\"{}\"", k, esc(v)));
+    }
+    for (k, v) in flags {
+        line.push_str(&format!(",\"{k}\":{v}"));
+    }
+    line.push('}');
+    BUF.with(|b| b.borrow_mut().push(line));
+}
+
+pub fn emit_new(kind: &str, id: u64, parent: u64) {
+    if !enabled() {
+        return;
+    }
+    BUF.with(|b| {
+        b.borrow_mut()
+            .push(format!("{{\"e\":\"New\",\"id\":{id},\"kind\":\"{kind}\",\"parent\":{parent}}}"))
+    });
+}
+
+/// Start of a top-level render (nested renders of partials are part of it).
+pub fn begin() {
+    if !enabled() {
+        return;
+    }
+    DEPTH.with(|d| *d.borrow_mut() += 1);
+}
+
+/// End of a render; the outermost one flushes the thread's events as one trace.
+pub fn end(ok: bool) {
+    if !enabled() {
+        return;
+    }
+    let outer = DEPTH.with(|d| {
+        let mut d = d.borrow_mut();
+        *d = d.saturating_sub(1);
+        *d == 0
+    });
+    if !outer {
+        return;
+    }
+    let lines = BUF.with(|b| std::mem::take(&mut *b.borrow_mut()));
+    if let Some(f) = sink() {
+        let mut f = f.lock().unwrap_or_else(|e| e.into_inner());
+        let mut text = String::from("{\"e\":\"Begin\",\"id\":0}\n");
+        for l in lines {
+            text.push_str(&l);
+            text.push('\n');
+        }
+        text.push_str(&format!("{{\"e\":\"End\",\"id\":0,\"ok\":{ok}}}\n"));
+        let _ = f.write_all(text.as_bytes());
+    }
+}
+
+/// Events recorded outside any render (frames built directly by tests) are dropped
+/// with the next `begin`.
+pub fn discard_if_idle() {
+    if !enabled() {
+        return;
+    }
+    if DEPTH.with(|d| *d.borrow() == 0) {
+        BUF.with(|b| b.borrow_mut().clear());
+    }
+}
